@@ -1,1127 +1,11 @@
-//! Driver `trans`: sqrt, log2, ln, exp, pow, powi, sin, cos, tan of `transcendental.rs` on the
-//! supported type pairs. Serves C12 (totality), C13..C16 (accuracy against exact integer brackets,
-//! f64 libm with a guard band for the 32-bit types, 256-bit series arithmetic otherwise), C17
-//! (loop-iteration counts through the cfg(substrate_fixed_verif) tick hook) and the C11 corpus.
+//! `trans`: sqrt, log2, ln, exp, pow, powi, sin, cos, tan on 30 type pairs and 10 trigonometric types with dense
+//! operand sets (C12..C17, C11 corpus). `transx` compiles every other eligible layout around the same driver.
 #![allow(unused_imports, dead_code)]
+#[macro_use]
+mod driver;
 mod oracle;
-
-use oracle::*;
-use std::hash::Hasher;
-use substrate_fixed::transcendental as tr;
-use substrate_fixed::types::*;
-use substrate_fixed::verif;
-use vcore::alpha::{self, Tier};
-use vcore::hp::{self, Hp};
-use vcore::par::{run_jobs, subject};
-use vcore::report::{Args, Report, Tally, Violation};
-use vcore::{mask, Lay, Layout, Out, Z};
-
-/// outcome of a Result-returning call
-#[derive(Clone, Copy, Debug, PartialEq, Eq, Hash)]
-pub enum TOut {
-    Ok(u128),
-    Err,
-    Panic,
-    /// iteration budget exhausted (the call was cut)
-    Cut,
-}
-impl std::fmt::Display for TOut {
-    fn fmt(&self, f: &mut std::fmt::Formatter) -> std::fmt::Result {
-        match self {
-            TOut::Ok(v) => write!(f, "Ok({:#x})", v),
-            TOut::Err => write!(f, "Err"),
-            TOut::Panic => write!(f, "panic"),
-            TOut::Cut => write!(f, "cut(iteration budget exhausted)"),
-        }
-    }
-}
-
-pub const F1: [&str; 4] = ["sqrt", "log2", "ln", "exp"];
-pub const TRIG: [&str; 3] = ["sin", "cos", "tan"];
-
-pub struct Pair {
-    s: Layout,
-    d: Layout,
-    /// sqrt / log2 / ln / exp; None when the function does not exist for the pair (unsigned: only sqrt)
-    f1: fn(usize, u128) -> Option<TOut>,
-    pow: Option<fn(u128, u128) -> TOut>,
-    powi: Option<fn(u128, i32) -> TOut>,
-}
-pub struct Trig {
-    t: Layout,
-    f: fn(usize, u128) -> TOut,
-}
-
-/// Watchdog for loops that carry no tick() (e.g. added by a later change): every worker publishes the start time
-/// of the call in progress; a monitor thread ends the process with exit code 3 and a `HANG` line naming the
-/// case if one call runs longer than HANG_SECONDS. (A call inside a ticked loop can never get there: the
-/// iteration budget unwinds it first.)
-pub const HANG_SECONDS: u64 = 20;
-pub struct Slot {
-    pub started_ms: std::sync::atomic::AtomicU64,
-    /// the call in progress, as plain numbers (formatted only if the watchdog fires)
-    pub w: [std::sync::atomic::AtomicU64; 7],
-}
-static SLOTS: std::sync::Mutex<Vec<std::sync::Arc<Slot>>> = std::sync::Mutex::new(Vec::new());
-static EPOCH: std::sync::OnceLock<std::time::Instant> = std::sync::OnceLock::new();
-fn now_ms() -> u64 {
-    EPOCH.get_or_init(std::time::Instant::now).elapsed().as_millis() as u64 + 1
-}
-thread_local! {
-    static MY_SLOT: std::sync::Arc<Slot> = {
-        let s = std::sync::Arc::new(Slot { started_ms: std::sync::atomic::AtomicU64::new(0), w: Default::default() });
-        SLOTS.lock().unwrap().push(s.clone());
-        s
-    };
-}
-fn pack(l: Layout) -> u64 {
-    (l.w as u64) << 16 | (l.frac as u64) << 1 | l.signed as u64
-}
-fn unpack(x: u64) -> Layout {
-    Layout::new((x >> 16) as u32, ((x >> 1) & 0x7fff) as u32, x & 1 == 1)
-}
-/// publish the call about to be made: function index into FUNCS, layouts, operands (second operand: raw bits or the i32 exponent)
-#[inline]
-pub fn announce(fi: usize, s: Layout, d: Layout, a: u128, b: u128) {
-    use std::sync::atomic::Ordering::Relaxed;
-    MY_SLOT.with(|sl| {
-        sl.w[0].store(fi as u64, Relaxed);
-        sl.w[1].store(pack(s), Relaxed);
-        sl.w[2].store(pack(d), Relaxed);
-        sl.w[3].store(a as u64, Relaxed);
-        sl.w[4].store((a >> 64) as u64, Relaxed);
-        sl.w[5].store(b as u64, Relaxed);
-        sl.w[6].store((b >> 64) as u64, Relaxed);
-    });
-}
-fn slot_case(s: &Slot) -> String {
-    use std::sync::atomic::Ordering::Relaxed;
-    let g = |i: usize| s.w[i].load(Relaxed);
-    let fi = g(0) as usize;
-    let (sl, dl) = (unpack(g(1)), unpack(g(2)));
-    let a = (g(4) as u128) << 64 | g(3) as u128;
-    let b = (g(6) as u128) << 64 | g(5) as u128;
-    match fi {
-        4 => format!("trans pow {} {} {:#x} {:#x}", sl.name(), dl.name(), a, b),
-        5 => format!("trans powi {} {} {:#x} {}", sl.name(), dl.name(), a, b as u32 as i32),
-        _ => format!("trans {} {} {} {:#x}", FUNCS[fi], sl.name(), dl.name(), a),
-    }
-}
-fn start_watchdog() {
-    now_ms();
-    std::thread::spawn(|| loop {
-        std::thread::sleep(std::time::Duration::from_millis(500));
-        let now = now_ms();
-        for s in SLOTS.lock().unwrap().iter() {
-            let st = s.started_ms.load(std::sync::atomic::Ordering::Relaxed);
-            if st != 0 && now > st + HANG_SECONDS * 1000 {
-                println!("HANG case={} seconds={}", slot_case(s), (now - st) / 1000);
-                use std::io::Write;
-                let _ = std::io::stdout().flush();
-                std::process::exit(3);
-            }
-        }
-    });
-}
-
-fn budget_call<R>(limit: u64, f: impl FnOnce() -> R) -> (Option<R>, u64, bool) {
-    verif::reset(limit);
-    MY_SLOT.with(|s| s.started_ms.store(now_ms(), std::sync::atomic::Ordering::Relaxed));
-    let r = subject(f);
-    MY_SLOT.with(|s| s.started_ms.store(0, std::sync::atomic::Ordering::Relaxed));
-    let t = verif::ticks();
-    verif::reset(u64::MAX);
-    let cut = r.is_none() && t > limit;
-    (r, t, cut)
-}
-
-thread_local! {
-    static LIMIT: std::cell::Cell<u64> = std::cell::Cell::new(u64::MAX);
-    static LAST_TICKS: std::cell::Cell<u64> = std::cell::Cell::new(0);
-}
-fn set_limit(l: u64) {
-    LIMIT.with(|c| c.set(l));
-}
-fn last_ticks() -> u64 {
-    LAST_TICKS.with(|c| c.get())
-}
-fn run_res<D: Lay, E>(f: impl FnOnce() -> Result<D, E>) -> TOut {
-    let (r, t, cut) = budget_call(LIMIT.with(|c| c.get()), f);
-    LAST_TICKS.with(|c| c.set(t));
-    match r {
-        Some(Ok(d)) => TOut::Ok(d.raw()),
-        Some(Err(_)) => TOut::Err,
-        None => {
-            if cut {
-                TOut::Cut
-            } else {
-                TOut::Panic
-            }
-        }
-    }
-}
-fn run_val<D: Lay>(f: impl FnOnce() -> D) -> TOut {
-    let (r, t, cut) = budget_call(LIMIT.with(|c| c.get()), f);
-    LAST_TICKS.with(|c| c.set(t));
-    match r {
-        Some(d) => TOut::Ok(d.raw()),
-        None => {
-            if cut {
-                TOut::Cut
-            } else {
-                TOut::Panic
-            }
-        }
-    }
-}
-
-macro_rules! spair {
-    ($S:ty, $D:ty) => {
-        Pair {
-            s: <$S as Lay>::LAYOUT,
-            d: <$D as Lay>::LAYOUT,
-            f1: |func, a| {
-                announce(func, <$S as Lay>::LAYOUT, <$D as Lay>::LAYOUT, a, 0);
-                let x = <$S as Lay>::from_raw(a);
-                Some(match func {
-                    0 => run_res::<$D, _>(|| tr::sqrt::<$S, $D>(x)),
-                    1 => run_res::<$D, _>(|| tr::log2::<$S, $D>(x)),
-                    2 => run_res::<$D, _>(|| tr::ln::<$S, $D>(x)),
-                    _ => run_res::<$D, _>(|| tr::exp::<$S, $D>(x)),
-                })
-            },
-            pow: Some(|a, b| {
-                announce(4, <$S as Lay>::LAYOUT, <$D as Lay>::LAYOUT, a, b);
-                let (x, y) = (<$S as Lay>::from_raw(a), <$S as Lay>::from_raw(b));
-                run_res::<$D, _>(|| tr::pow::<$S, $D>(x, y))
-            }),
-            powi: Some(|a, n| {
-                announce(5, <$S as Lay>::LAYOUT, <$D as Lay>::LAYOUT, a, n as u32 as u128);
-                let x = <$S as Lay>::from_raw(a);
-                run_res::<$D, _>(|| tr::powi::<$S, $D>(x, n))
-            }),
-        }
-    };
-}
-macro_rules! upair {
-    ($S:ty, $D:ty) => {
-        Pair {
-            s: <$S as Lay>::LAYOUT,
-            d: <$D as Lay>::LAYOUT,
-            f1: |func, a| {
-                announce(func, <$S as Lay>::LAYOUT, <$D as Lay>::LAYOUT, a, 0);
-                let x = <$S as Lay>::from_raw(a);
-                match func {
-                    0 => Some(run_res::<$D, _>(|| tr::sqrt::<$S, $D>(x))),
-                    _ => None,
-                }
-            },
-            pow: None,
-            powi: None,
-        }
-    };
-}
-/// unsigned source, signed destination: sqrt and powi exist (log2/ln/exp/pow need a signed source)
-macro_rules! uspair {
-    ($S:ty, $D:ty) => {
-        Pair {
-            s: <$S as Lay>::LAYOUT,
-            d: <$D as Lay>::LAYOUT,
-            f1: |func, a| {
-                announce(func, <$S as Lay>::LAYOUT, <$D as Lay>::LAYOUT, a, 0);
-                let x = <$S as Lay>::from_raw(a);
-                match func {
-                    0 => Some(run_res::<$D, _>(|| tr::sqrt::<$S, $D>(x))),
-                    _ => None,
-                }
-            },
-            pow: None,
-            powi: Some(|a, n| {
-                announce(5, <$S as Lay>::LAYOUT, <$D as Lay>::LAYOUT, a, n as u32 as u128);
-                let x = <$S as Lay>::from_raw(a);
-                run_res::<$D, _>(|| tr::powi::<$S, $D>(x, n))
-            }),
-        }
-    };
-}
-macro_rules! trig {
-    ($T:ty) => {
-        Trig {
-            t: <$T as Lay>::LAYOUT,
-            f: |func, a| {
-                announce(6 + func, <$T as Lay>::LAYOUT, <$T as Lay>::LAYOUT, a, 0);
-                let x = <$T as Lay>::from_raw(a);
-                match func {
-                    0 => run_val::<$T>(|| tr::sin::<$T>(x)),
-                    1 => run_val::<$T>(|| tr::cos::<$T>(x)),
-                    _ => run_val::<$T>(|| tr::tan::<$T>(x)),
-                }
-            },
-        }
-    };
-}
-
-mod t0 {
-    use super::*;
-    pub fn pairs() -> Vec<Pair> {
-        vec![spair!(I9F23, I9F23), spair!(I9F55, I9F55), spair!(I16F48, I16F48), spair!(I32F32, I32F32), spair!(I41F23, I41F23)]
-    }
-}
-mod t1 {
-    use super::*;
-    pub fn pairs() -> Vec<Pair> {
-        vec![spair!(I9F119, I9F119), spair!(I40F88, I40F88), spair!(I64F64, I64F64)]
-    }
-}
-mod t2 {
-    use super::*;
-    pub fn pairs() -> Vec<Pair> {
-        vec![spair!(I96F32, I96F32), spair!(I105F23, I105F23), spair!(I9F23, I32F32), spair!(I9F23, I64F64)]
-    }
-}
-mod t3 {
-    use super::*;
-    pub fn pairs() -> Vec<Pair> {
-        vec![spair!(I32F32, I64F64), spair!(I16F48, I40F88), spair!(I9F23, I9F55), spair!(I9F23, I10F54), spair!(I9F23, I96F32)]
-    }
-}
-mod t4 {
-    use super::*;
-    pub fn pairs() -> Vec<Pair> {
-        vec![
-            upair!(U9F23, U9F23), upair!(U9F55, U9F55), upair!(U32F32, U32F32), upair!(U9F119, U9F119), upair!(U64F64, U64F64), upair!(U96F32, U96F32), upair!(U105F23, U105F23), upair!(U9F23, U64F64), upair!(U32F32, U96F32),
-            uspair!(U9F23, I32F32), uspair!(U32F32, I64F64), uspair!(U9F23, I64F64), uspair!(U32F32, I96F32),
-        ]
-    }
-}
-mod t5 {
-    use super::*;
-    pub fn trigs() -> Vec<Trig> {
-        vec![trig!(I9F23), trig!(I9F55), trig!(I16F48), trig!(I32F32), trig!(I41F23)]
-    }
-}
-mod t6 {
-    use super::*;
-    pub fn trigs() -> Vec<Trig> {
-        vec![trig!(I9F119), trig!(I40F88), trig!(I64F64), trig!(I96F32), trig!(I105F23)]
-    }
-}
-fn pairs() -> Vec<Pair> {
-    let mut v = t0::pairs();
-    v.extend(t1::pairs());
-    v.extend(t2::pairs());
-    v.extend(t3::pairs());
-    v.extend(t4::pairs());
-    v
-}
-fn trigs() -> Vec<Trig> {
-    let mut v = t5::trigs();
-    v.extend(t6::trigs());
-    v
-}
-
-// ------------------------------------------------------------------ domains
-
-fn push_unique(v: &mut Vec<u128>, seen: &mut std::collections::HashSet<u128>, x: u128, m: u128) {
-    let x = x & m;
-    if seen.insert(x) {
-        v.push(x);
-    }
-}
-
-/// operands of a layout: boundary alphabet, small integers, neighbourhood of one, a grid of
-/// 2^g multiples per octave, both signs
-fn operands(l: Layout, g: u32, tier: Tier) -> Vec<u128> {
-    let m = mask(l.w);
-    let mut v = vec![];
-    let mut seen = std::collections::HashSet::new();
-    for x in alpha::boundary(l, tier) {
-        push_unique(&mut v, &mut seen, x, m);
-    }
-    let top = if l.signed { l.w - 1 } else { l.w };
-    let one = 1u128 << l.frac;
-    for n in 0..=300u128 {
-        // every small integer (and integer + 1/2) that the type can hold
-        if l.frac < 128 && n < (1u128 << (top - l.frac).min(120)) {
-            push_unique(&mut v, &mut seen, n << l.frac, m);
-            if l.frac >= 1 {
-                push_unique(&mut v, &mut seen, (n << l.frac) + (one >> 1), m);
-            }
-            if l.signed {
-                push_unique(&mut v, &mut seen, (n << l.frac).wrapping_neg(), m);
-            }
-        }
-    }
-    for j in 0..=4u128 {
-        push_unique(&mut v, &mut seen, one + j, m);
-        push_unique(&mut v, &mut seen, one - j, m);
-        push_unique(&mut v, &mut seen, 2 * one + j, m);
-        push_unique(&mut v, &mut seen, 2 * one - j, m);
-    }
-    for k in 0..top {
-        let p = 1u128 << k;
-        let steps = 1u128 << g.min(k);
-        for j in 0..steps {
-            let x = p + (p >> g.min(k)) * j;
-            push_unique(&mut v, &mut seen, x, m);
-            if l.signed {
-                push_unique(&mut v, &mut seen, x.wrapping_neg(), m);
-            }
-        }
-    }
-    v
-}
-
-/// Operands whose base-two logarithm is a dyadic rational k + j/2^m (m <= 3, thorough 5): the two representable
-/// neighbours on either side of 2^(k + j/2^m) for every k the layout can hold. These are the inputs on which the
-/// square-and-compare loop of log2 meets its comparison against two with (near) equality, and where the binary
-/// expansion of the true result terminates early.
-fn dyadic_log_operands(l: Layout, tier: Tier) -> Vec<u128> {
-    use vcore::hp::{self, Hp};
-    let m = mask(l.w);
-    let top = if l.signed { l.w - 1 } else { l.w };
-    let mbits = if tier == Tier::Quick { 3u32 } else { 5 };
-    let mut v = vec![];
-    let mut seen = std::collections::HashSet::new();
-    for j in 1..(1u64 << mbits) {
-        // 2^(j / 2^mbits) in [1, 2), 256 fractional bits
-        let r: Hp = hp::exp(hp::ln2().mul_small(j).shr(mbits));
-        for e in 0..top {
-            // floor(r * 2^e) as raw bits: the value is r * 2^(e - frac)
-            let fl = r.0.shr_floor(hp::HF - e).low128();
-            for d in [0u128, 1, 2] {
-                let Some(hi) = fl.checked_add(d) else { continue };
-                if top == 128 || hi >> top == 0 {
-                    push_unique(&mut v, &mut seen, hi, m);
-                }
-                if d < 2 && fl >= d {
-                    push_unique(&mut v, &mut seen, fl - d, m);
-                }
-            }
-        }
-    }
-    v
-}
-
-fn exponents(tier: Tier) -> Vec<i32> {
-    let mut v: Vec<i32> = (-64..=64).collect();
-    for k in 7..31 {
-        let p = 1i32 << k;
-        for d in [-1, 0, 1] {
-            v.push(p + d);
-            v.push(-(p + d));
-        }
-    }
-    v.extend([i32::MIN, i32::MIN + 1, i32::MAX, i32::MAX - 1]);
-    if tier == Tier::Quick {
-        v.retain(|n| n.unsigned_abs() <= 20 || [31, 32, 33, 63, 64].contains(&n.unsigned_abs()) || n.unsigned_abs().is_power_of_two() || *n == i32::MIN + 1 || *n == i32::MAX || (n.unsigned_abs() + 1).is_power_of_two());
-    }
-    v.sort();
-    v.dedup();
-    v
-}
-
-fn m_mask(w: u32) -> u128 {
-    mask(w)
-}
-
-fn angles(t: Layout, limit: u32, gq: u32, tier: Tier) -> Vec<u128> {
-    let m = mask(t.w);
-    let mut v = vec![];
-    let mut seen = std::collections::HashSet::new();
-    let lim_raw: i128 = (limit as i128) << t.frac;
-    let in_range = |raw: u128| {
-        let z = t.z(raw).to_i128().unwrap();
-        z >= -lim_raw && z <= lim_raw
-    };
-    // grid
-    let step: i128 = 1i128 << (t.frac - gq);
-    let mut x = -lim_raw;
-    while x <= lim_raw {
-        push_unique(&mut v, &mut seen, x as u128, m);
-        x += step;
-    }
-    for b in alpha::boundary(t, tier) {
-        if in_range(b) {
-            push_unique(&mut v, &mut seen, b, m);
-        }
-    }
-    // angles at which the CORDIC residual becomes exactly zero after k <= 8 steps: signed sums of the first
-    // table angles atan(2^-i) as the library truncates them to the type's resolution, in several periods, and
-    // the same shifted by the pi/2 phase of cos and halved for tan (shortcut visible in the code: the loop has a
-    // commented-out early exit on z == 0)
-    {
-        const ATAN: [u128; 9] = [
-            0xC90FDAA22168C0000000000000000000,
-            0x76B19C1586ED3C000000000000000000,
-            0x3EB6EBF25901BA000000000000000000,
-            0x1FD5BA9AAC2F6E000000000000000000,
-            0x0FFAADDB967EF5000000000000000000,
-            0x07FF556EEA5D89400000000000000000,
-            0x03FFEAAB776E53600000000000000000,
-            0x01FFFD555BBBA9700000000000000000,
-            0x00FFFFAAAADDDDB80000000000000000,
-        ];
-        let tab: Vec<i128> = ATAN.iter().map(|&a| (a >> (128 - t.frac)) as i128).collect();
-        // the module's I9F23 constants widened to the type
-        let pi24 = hp::pi().0.shr_floor(hp::HF - 24).to_i128().unwrap(); // floor(pi * 2^24) = TWO_PI in I9F23 bits
-        let two_pi = (pi24) << (t.frac - 23);
-        let half_pi = (pi24 >> 2) << (t.frac - 23);
-        let kmax = if tier == Tier::Quick { 6 } else { 9 };
-        for k in 1..=kmax {
-            for signs in 0..(1u32 << k) {
-                let mut sum: i128 = 0;
-                for i in 0..k {
-                    if signs >> i & 1 == 1 {
-                        sum -= tab[i];
-                    } else {
-                        sum += tab[i];
-                    }
-                }
-                for m in [0i128, 1, -1, 7, -25] {
-                    let base = sum + m * two_pi;
-                    for x in [base, base - half_pi, base + half_pi, base / 2, (base - half_pi) / 2] {
-                        let r = x as u128 & m_mask(t.w);
-                        if in_range(r) {
-                            push_unique(&mut v, &mut seen, r, m_mask(t.w));
-                        }
-                    }
-                }
-            }
-        }
-    }
-    // neighbourhood of every multiple of pi/2, and points approaching it (poles of tan)
-    let half_pi = hp::pi().shr(1);
-    for k in -130i64..=130 {
-        let a = half_pi.mul_small(k.unsigned_abs());
-        let a = if k < 0 { a.neg() } else { a };
-        // floor to the type's resolution
-        let raw = a.0.shr_floor(hp::HF - t.frac).to_i128().unwrap();
-        let mut offs: Vec<i128> = vec![0, 1, -1, 2, -2, 100, -100];
-        for mm in 1..=t.frac.min(24) {
-            offs.push(1i128 << (t.frac - mm));
-            offs.push(-(1i128 << (t.frac - mm)));
-        }
-        for o in offs {
-            let r = (raw + o) as u128 & m;
-            if in_range(r) {
-                push_unique(&mut v, &mut seen, r, m);
-            }
-        }
-    }
-    v
-}
-
-// ------------------------------------------------------------------ exploration
-
-#[derive(Clone, Copy, PartialEq, Eq, Debug)]
-enum Prop {
-    C12,
-    C13,
-    C14,
-    C15,
-    C16,
-    C17,
-    C11,
-}
-
-fn tick_bound(d: Layout) -> u64 {
-    4 * d.w as u64 + 64
-}
-
-struct Acc {
-    rep: Report,
-    tally: Tally,
-    dig: std::collections::hash_map::DefaultHasher,
-    worst: std::collections::BTreeMap<String, f64>,
-    max_ticks: std::collections::BTreeMap<String, u64>,
-}
-const FUNCS: [&str; 9] = ["sqrt", "log2", "ln", "exp", "pow", "powi", "sin", "cos", "tan"];
-impl Acc {
-    fn new() -> Acc {
-        Acc { rep: Report::new("trans", "", ""), tally: Tally::new(FUNCS.len()), dig: Default::default(), worst: Default::default(), max_ticks: Default::default() }
-    }
-    fn count(&mut self, fi: usize, out: &TOut) {
-        self.rep.transitions += 1;
-        self.tally.counts[fi][match out {
-            TOut::Ok(0) => 7,
-            TOut::Ok(_) => 0,
-            TOut::Err => 5,
-            TOut::Panic => 6,
-            TOut::Cut => 8,
-        }] += 1;
-    }
-    fn viol(&mut self, key: String, diff: &str, case: String, observed: String, expected: String, note: String) {
-        // known-finding class by cause: pow with an amplified exponent error
-        let kf = if diff == "accuracy" && case.starts_with("trans pow ") {
-            let p: Vec<&str> = case.split_whitespace().collect();
-            let (s, d) = (Layout::parse(p[2]).unwrap(), Layout::parse(p[3]).unwrap());
-            let explained = match observed.strip_prefix("Ok(0x").and_then(|h| h.strip_suffix(')')).and_then(|h| u128::from_str_radix(h, 16).ok()) {
-                Some(r) => pow_result_explained_by_log_error(s, d, hexv(p[4]), hexv(p[5]), r),
-                None => false,
-            };
-            if explained && pow_exponent_error_amplified(s, d, hexv(p[4]), hexv(p[5])) {
-                Some(KF_POW)
-            } else {
-                None
-            }
-        } else {
-            None
-        };
-        self.rep.violation(Violation { key, diff: diff.into(), case, observed, expected, note, kf });
-    }
-    fn ratio(&mut self, key: &str, r: f64) {
-        let e = self.worst.entry(key.to_string()).or_insert(0.0);
-        if r > *e {
-            *e = r;
-        }
-    }
-}
-
-thread_local! {
-    static DUMP: std::cell::Cell<bool> = std::cell::Cell::new(false);
-}
-
-fn judge(acc: &mut Acc, prop: Prop, fi: usize, s: Layout, d: Layout, case: impl Fn() -> String, out: TOut, ticks: u64, verdict: impl FnOnce() -> Verdict) {
-    if DUMP.with(|c| c.get()) {
-        if !(fi == 8 && !in_trig_domain(s, 2, case_operand(&case()))) {
-            println!("{}\t{}", case(), out);
-        }
-        return;
-    }
-    acc.count(fi, &out);
-    let pk = format!("{}->{} {}", s.name(), d.name(), FUNCS[fi]);
-    match prop {
-        Prop::C11 => {
-            // tan is an operation without overflow handling: outside the domain on which the property
-            // promises a value (|x| <= 100, |tan x| <= 64) a profile-dependent overflow panic is permitted
-            if fi == 8 && !in_trig_domain(s, 2, case_operand(&case())) {
-                *acc.rep.extra.entry("tan_cases_outside_domain_not_digested".into()).or_default() += 1;
-            } else {
-                out.hash_into(&mut acc.dig);
-            }
-        }
-        Prop::C17 => {
-            if fi == 5 {
-                return; // powi is linear in |n| by design
-            }
-            acc.rep.judged += 1;
-            acc.tally.judged[fi] += 1;
-            let e = acc.max_ticks.entry(pk.clone()).or_insert(0);
-            if ticks > *e {
-                *e = ticks;
-            }
-            let bound = tick_bound(d);
-            if ticks > bound || out == TOut::Cut {
-                acc.viol(pk, "iterations", case(), format!("{} loop iterations{}", ticks, if out == TOut::Cut { " (call cut at the budget)" } else { "" }), format!("at most 4 x {} + 64 = {}", d.w, bound), String::new());
-            }
-        }
-        Prop::C12 => {
-            acc.rep.judged += 1;
-            acc.tally.judged[fi] += 1;
-            match out {
-                TOut::Panic => {
-                    // sin/cos: |x| <= 200; tan: |x| <= 100 and |tan x| <= 64 (decided by the reference)
-                    if fi < 6 || in_trig_domain(s, fi - 6, case_operand(&case())) {
-                        acc.viol(pk, "panic", case(), "panic".into(), if fi < 6 { "Ok or Err".into() } else { "a value (no panic)".into() }, String::new());
-                    } else {
-                        *acc.rep.extra.entry("trig_panics_outside_the_property_domain".into()).or_default() += 1;
-                    }
-                }
-                TOut::Cut => {
-                    if fi != 5 {
-                        // unbounded work is reported under C17; here the call could not be decided
-                        *acc.rep.extra.entry("calls_cut_by_budget".into()).or_default() += 1;
-                    } else {
-                        *acc.rep.extra.entry("powi_calls_cut_by_budget".into()).or_default() += 1;
-                    }
-                }
-                _ => {
-                    if let Verdict::MustErr(why) = verdict() {
-                        if out != TOut::Err {
-                            acc.viol(pk, "missing-err", case(), out.to_string(), "Err".into(), why);
-                        }
-                    }
-                }
-            }
-        }
-        _ => {
-            // accuracy properties: judge Ok results (and unjustified Err)
-            if out == TOut::Panic || out == TOut::Cut {
-                return;
-            }
-            acc.rep.judged += 1;
-            acc.tally.judged[fi] += 1;
-            match verdict() {
-                Verdict::Fine { ratio } => acc.ratio(&pk, ratio),
-                Verdict::Unjudged | Verdict::MustErr(_) => {}
-                Verdict::Bad { diff, expected, note, ratio } => {
-                    acc.ratio(&pk, ratio);
-                    acc.viol(pk, diff, case(), out.to_string(), expected, note);
-                }
-            }
-        }
-    }
-}
-
-/// last hexadecimal operand of a replay descriptor (trig calls have exactly one)
-fn case_operand(case: &str) -> u128 {
-    hexv(case.split_whitespace().last().unwrap())
-}
-
-impl TOut {
-    fn hash_into(&self, h: &mut impl Hasher) {
-        use std::hash::Hash;
-        self.hash(h);
-    }
-}
-
-fn serves(prop: Prop, fi: usize) -> bool {
-    match prop {
-        Prop::C13 => fi == 0,
-        Prop::C14 => fi == 1 || fi == 2,
-        Prop::C15 => (3..=5).contains(&fi),
-        Prop::C16 => fi >= 6,
-        _ => true,
-    }
-}
-
-fn grid_bits(l: Layout, tier: Tier) -> u32 {
-    match (tier, l.w) {
-        (Tier::Quick, 128) => 3,
-        (Tier::Quick, _) => 5,
-        (Tier::Thorough, 128) => 7,
-        (Tier::Thorough, _) => 9,
-    }
-}
-
-fn explore_pair(p: &Pair, func: usize, prop: Prop, tier: Tier, chunk: Option<(usize, usize)>) -> Acc {
-    // func: 0..3 f1, 4 pow, 5 powi
-    let mut acc = Acc::new();
-    let (s, d) = (p.s, p.d);
-    let limit = match prop {
-        Prop::C17 => tick_bound(d) + 1,
-        _ => 100_000,
-    };
-    set_limit(limit);
-    let mut ops = operands(s, grid_bits(s, tier), tier);
-    if func < 4 {
-        let seen: std::collections::HashSet<u128> = ops.iter().copied().collect();
-        ops.extend(dyadic_log_operands(s, tier).into_iter().filter(|x| !seen.contains(x)));
-    }
-    let ops: &[u128] = match chunk {
-        Some((i, n)) => {
-            let per = (ops.len() + n - 1) / n;
-            let lo = (i * per).min(ops.len());
-            let hi = ((i + 1) * per).min(ops.len());
-            // leak is fine: small, per job
-            Box::leak(ops[lo..hi].to_vec().into_boxed_slice())
-        }
-        None => Box::leak(ops.into_boxed_slice()),
-    };
-    if func < 4 {
-        for &a in ops {
-            let Some(out) = (p.f1)(func, a) else { return acc };
-            acc.rep.states += 1;
-            if a != 0 {
-                acc.rep.nontrivial_states += 1;
-            }
-            let t = last_ticks();
-            judge(&mut acc, prop, func, s, d, || format!("trans {} {} {} {:#x}", F1[func], s.name(), d.name(), a), out, t, || match func {
-                0 => sqrt_verdict(s, d, a, out),
-                1 => log_verdict(s, d, a, out, false),
-                2 => log_verdict(s, d, a, out, true),
-                _ => exp_verdict(s, d, a, out),
-            });
-        }
-    } else if func == 4 {
-        let Some(pow) = p.pow else { return acc };
-        // bases x exponents: thinner grids
-        let g = if tier == Tier::Quick { 1 } else { 3 };
-        let bases: Vec<u128> = operands(s, g, Tier::Quick);
-        let exps: Vec<u128> = {
-            let mut v = operands(s, if tier == Tier::Quick { 0 } else { 1 }, Tier::Quick);
-            // exponents of moderate size matter most
-            let one = 1i128 << s.frac.min(118);
-            v.retain(|&y| {
-                let z = s.z(y).to_i128().unwrap();
-                z.unsigned_abs() <= 300 * one as u128
-            });
-            // ... but the extremes of the exponent range belong to the domain too
-            let seen: std::collections::HashSet<u128> = v.iter().cloned().collect();
-            let mut extremes = vec![s.min_raw(), s.min_raw() + 1, s.max_raw(), s.max_raw() - 1, s.max_raw() >> 1, (s.max_raw() >> 1).wrapping_neg() & mask(s.w)];
-            if s.frac + 12 < s.w {
-                extremes.push(1000u128 << s.frac);
-                extremes.push((1000u128 << s.frac).wrapping_neg() & mask(s.w));
-            }
-            for y in extremes {
-                if !seen.contains(&y) {
-                    v.push(y);
-                }
-            }
-            v
-        };
-        let bases: Vec<u128> = match chunk {
-            Some((i, n)) => bases.iter().cloned().skip(i).step_by(n).collect(),
-            None => bases,
-        };
-        for &a in &bases {
-            for &b in &exps {
-                let out = pow(a, b);
-                acc.rep.states += 1;
-                acc.rep.nontrivial_states += 1;
-                let t = last_ticks();
-                judge(&mut acc, prop, 4, s, d, || format!("trans pow {} {} {:#x} {:#x}", s.name(), d.name(), a, b), out, t, || pow_verdict(s, d, a, b, out));
-            }
-        }
-    } else {
-        let Some(powi) = p.powi else { return acc };
-        let g = if tier == Tier::Quick { 1 } else { 3 };
-        let bases: Vec<u128> = operands(s, g, Tier::Quick);
-        let bases: Vec<u128> = match chunk {
-            Some((i, n)) => bases.iter().cloned().skip(i).step_by(n).collect(),
-            None => bases,
-        };
-        if prop == Prop::C17 {
-            return acc; // powi is linear in |n| by design and not covered by C17
-        }
-        let ns = exponents(tier);
-        // powi is linear in |n|: give it a budget that lets moderate exponents finish and cuts the rest
-        set_limit(if tier == Tier::Quick { 30_000 } else { 250_000 });
-        for &a in &bases {
-            for &n in &ns {
-                let out = powi(a, n);
-                acc.rep.states += 1;
-                acc.rep.nontrivial_states += 1;
-                let t = last_ticks();
-                judge(&mut acc, prop, 5, s, d, || format!("trans powi {} {} {:#x} {}", s.name(), d.name(), a, n), out, t, || powi_verdict(s, d, a, n, out, &|x, m| powi(x, m)));
-            }
-        }
-    }
-    acc
-}
-
-fn explore_trig(tg: &Trig, func: usize, prop: Prop, tier: Tier) -> Acc {
-    let mut acc = Acc::new();
-    let t = tg.t;
-    set_limit(match prop {
-        Prop::C17 => tick_bound(t) + 1,
-        _ => 100_000,
-    });
-    let gq = if tier == Tier::Quick { 5 } else { 10 };
-    let limit = if func == 2 { 100 } else { 200 };
-    for &a in &angles(t, limit, gq, tier) {
-        let out = (tg.f)(func, a);
-        acc.rep.states += 1;
-        acc.rep.nontrivial_states += 1;
-        let tk = last_ticks();
-        judge(&mut acc, prop, 6 + func, t, t, || format!("trans {} {} {} {:#x}", TRIG[func], t.name(), t.name(), a), out, tk, || trig_verdict(t, func, a, out));
-    }
-    if prop == Prop::C17 {
-        // C17 quantifies over all operands: also the extremes far outside |x| <= 200
-        for &a in &operands(t, 1, Tier::Quick) {
-            let out = (tg.f)(func, a);
-            acc.rep.states += 1;
-            let tk = last_ticks();
-            if prop == Prop::C17 {
-                judge(&mut acc, prop, 6 + func, t, t, || format!("trans {} {} {} {:#x}", TRIG[func], t.name(), t.name(), a), out, tk, || Verdict::Unjudged);
-            } else {
-                acc.count(6 + func, &out);
-            }
-        }
-    }
-    acc
-}
-
-/// exhaustive sweep of all 2^32 I9F23 / U9F23 bit patterns (thorough tier), f64 reference
-fn explore_exhaustive32(p: &Pair, func: usize, prop: Prop, part: u32, parts: u32) -> Acc {
-    let mut acc = Acc::new();
-    let (s, d) = (p.s, p.d);
-    set_limit(match prop {
-        Prop::C17 => tick_bound(d) + 1,
-        _ => 100_000,
-    });
-    let per = (1u64 << 32) / parts as u64;
-    let lo = part as u64 * per;
-    for a in lo..lo + per {
-        let a = a as u128;
-        let Some(out) = (p.f1)(func, a) else { return acc };
-        acc.rep.states += 1;
-        acc.rep.nontrivial_states += 1;
-        let t = last_ticks();
-        judge(&mut acc, prop, func, s, d, || format!("trans {} {} {} {:#x}", F1[func], s.name(), d.name(), a), out, t, || match func {
-            0 => sqrt_verdict(s, d, a, out),
-            1 => log_verdict(s, d, a, out, false),
-            2 => log_verdict(s, d, a, out, true),
-            _ => exp_verdict(s, d, a, out),
-        });
-    }
-    acc
-}
-fn explore_trig_exhaustive32(tg: &Trig, func: usize, prop: Prop, part: u32, parts: u32) -> Acc {
-    let mut acc = Acc::new();
-    let t = tg.t;
-    set_limit(match prop {
-        Prop::C17 => tick_bound(t) + 1,
-        _ => 100_000,
-    });
-    let limit: i64 = if func == 2 { 100 } else { 200 };
-    let lim_raw = limit << t.frac;
-    let total = 2 * lim_raw + 1;
-    let per = (total + parts as i64 - 1) / parts as i64;
-    let lo = -lim_raw + part as i64 * per;
-    let hi = (lo + per).min(lim_raw + 1);
-    for x in lo..hi {
-        let a = (x as i128 as u128) & mask(t.w);
-        let out = (tg.f)(func, a);
-        acc.rep.states += 1;
-        acc.rep.nontrivial_states += 1;
-        let tk = last_ticks();
-        judge(&mut acc, prop, 6 + func, t, t, || format!("trans {} {} {} {:#x}", TRIG[func], t.name(), t.name(), a), out, tk, || trig_verdict(t, func, a, out));
-    }
-    acc
-}
-
-enum Job {
-    Pair { pi: usize, func: usize, chunk: Option<(usize, usize)> },
-    Trig { ti: usize, func: usize },
-    Ex32 { pi: usize, func: usize, part: u32, parts: u32 },
-    TrigEx32 { ti: usize, func: usize, part: u32, parts: u32 },
-}
-
-fn cmd_run(args: &Args) {
-    let prop_s = args.get("prop").expect("--prop");
-    let prop = match prop_s.as_str() {
-        "C12" => Prop::C12,
-        "C13" => Prop::C13,
-        "C14" => Prop::C14,
-        "C15" => Prop::C15,
-        "C16" => Prop::C16,
-        "C17" => Prop::C17,
-        "C11" => Prop::C11,
-        p => panic!("trans does not serve {}", p),
-    };
-    let tier = Tier::parse(&args.get("tier").unwrap_or("quick".into()));
-    // the 2^32 sweeps run in both builds under C12..C17; the profile-independence pass leaves them out unless asked
-    let exhaustive = tier == Tier::Thorough && !args.has("no-exhaustive") && (prop != Prop::C11 || std::env::var("VERIF_C11_FULL").is_ok());
-    let t0 = std::time::Instant::now();
-    let ps = pairs();
-    let ts = trigs();
-    let mut jobs = vec![];
-    for (pi, p) in ps.iter().enumerate() {
-        for func in 0..6 {
-            if !serves(prop, func) {
-                continue;
-            }
-            if !p.s.signed && !(func == 0 || (func == 5 && p.powi.is_some())) {
-                continue;
-            }
-            let nchunks = if p.s.w == 128 || func >= 4 || tier == Tier::Thorough { 8 } else { 2 };
-            for i in 0..nchunks {
-                jobs.push(Job::Pair { pi, func, chunk: Some((i, nchunks)) });
-            }
-            if exhaustive && p.s.w == 32 && p.d.w == 32 && func < 4 {
-                for part in 0..256 {
-                    jobs.push(Job::Ex32 { pi, func, part, parts: 256 });
-                }
-            }
-        }
-    }
-    for (ti, t) in ts.iter().enumerate() {
-        for func in 0..3 {
-            if !serves(prop, 6 + func) {
-                continue;
-            }
-            jobs.push(Job::Trig { ti, func });
-            if exhaustive && t.t.w == 32 {
-                for part in 0..256 {
-                    jobs.push(Job::TrigEx32 { ti, func, part, parts: 256 });
-                }
-            }
-        }
-    }
-    let results = run_jobs(&jobs, |j| match j {
-        Job::Pair { pi, func, chunk } => explore_pair(&ps[*pi], *func, prop, tier, *chunk),
-        Job::Trig { ti, func } => explore_trig(&ts[*ti], *func, prop, tier),
-        Job::Ex32 { pi, func, part, parts } => explore_exhaustive32(&ps[*pi], *func, prop, *part, *parts),
-        Job::TrigEx32 { ti, func, part, parts } => explore_trig_exhaustive32(&ts[*ti], *func, prop, *part, *parts),
-    });
-    let mut rep = Report::new("trans", &prop_s, tier.name());
-    let mut worst: std::collections::BTreeMap<String, f64> = Default::default();
-    let mut max_ticks: std::collections::BTreeMap<String, u64> = Default::default();
-    let mut digs: std::collections::BTreeMap<String, std::collections::hash_map::DefaultHasher> = Default::default();
-    for (j, mut a) in jobs.iter().zip(results) {
-        let name = match j {
-            Job::Pair { pi, func, .. } | Job::Ex32 { pi, func, .. } => format!("{} {} {}", ps[*pi].s.name(), ps[*pi].d.name(), FUNCS[*func]),
-            Job::Trig { ti, func } | Job::TrigEx32 { ti, func, .. } => format!("{} {} {}", ts[*ti].t.name(), ts[*ti].t.name(), TRIG[*func]),
-        };
-        digs.entry(name.clone()).or_default().write_u64(a.dig.finish());
-        let cls = match j {
-            Job::Pair { pi, .. } | Job::Ex32 { pi, .. } => format!("{}->{}", ps[*pi].s.name(), ps[*pi].d.name()),
-            Job::Trig { ti, .. } | Job::TrigEx32 { ti, .. } => ts[*ti].t.name(),
-        };
-        a.rep.add_tally(&cls, &FUNCS, &a.tally);
-        for (k, r) in a.worst {
-            let e = worst.entry(k).or_insert(0.0);
-            if r > *e {
-                *e = r;
-            }
-        }
-        for (k, r) in a.max_ticks {
-            let e = max_ticks.entry(k).or_insert(0);
-            if r > *e {
-                *e = r;
-            }
-        }
-        rep.merge(a.rep);
-    }
-    if prop == Prop::C11 {
-        for (k, h) in digs {
-            rep.digests.insert(k, format!("{:016x}", h.finish()));
-        }
-    }
-    rep.layouts = (ps.len() + ts.len()) as u64;
-    for (k, r) in &worst {
-        rep.notes.push(format!("worst error / allowed error for {}: {:.4}", k, r));
-    }
-    for (k, r) in &max_ticks {
-        rep.notes.push(format!("max loop iterations for {}: {}", k, r));
-    }
-    // samples
-    let p = &ps[3];
-    set_limit(100_000);
-    for (func, a) in [(0usize, 2u128 << 32), (1, 10u128 << 32), (3, 5u128 << 31)] {
-        if serves(prop, func) {
-            let out = (p.f1)(func, a).unwrap();
-            rep.samples.push(format!("trans {} {} {} {:#x} -> {} ({} loop iterations)", F1[func], p.s.name(), p.d.name(), a, out, last_ticks()));
-        }
-    }
-    if serves(prop, 6) {
-        let t = &ts[3];
-        let a = 3u128 << 32;
-        rep.samples.push(format!("trans sin {} {:#x} -> {} ({} loop iterations)", t.t.name(), a, (t.f)(0, a), last_ticks()));
-    }
-    if serves(prop, 5) {
-        let a = 3u128 << 31;
-        rep.samples.push(format!("trans powi {} {:#x} 7 -> {}", p.s.name(), a, (p.powi.unwrap())(a, 7)));
-    }
-    if exhaustive {
-        rep.complete_subspaces.push("every one of the 2^32 bit patterns of I9F23 (and U9F23 for sqrt) as operand of sqrt/log2/ln/exp; every I9F23 angle with |x| <= 200 for sin/cos and |x| <= 100 for tan".into());
-    }
-    rep.extra.insert("type_pairs".into(), ps.len() as u64);
-    rep.extra.insert("trig_types".into(), ts.len() as u64);
-    rep.wall_s = t0.elapsed().as_secs_f64();
-    rep.write(&args.get("out").expect("--out"));
-    println!("trans prop={} tier={} profile={} states={} transitions={} judged={} mismatches={} wall={:.1}s", rep.prop, rep.tier, vcore::profile_name(), rep.states, rep.transitions, rep.judged, rep.violation_counts.values().sum::<u64>(), rep.wall_s);
-}
-
-fn hexv(s: &str) -> u128 {
-    u128::from_str_radix(s.trim_start_matches("0x"), 16).expect("hex")
-}
-
-fn cmd_replay(a: &[String]) -> i32 {
-    let ps = pairs();
-    let ts = trigs();
-    let f = a[0].as_str();
-    let s = Layout::parse(&a[1]).unwrap();
-    let d = Layout::parse(&a[2]).unwrap();
-    set_limit(10_000_000);
-    println!("profile:  {}", vcore::profile_name());
-    println!("call:     {}", a.join(" "));
-    let (out, v): (TOut, Verdict) = if let Some(func) = TRIG.iter().position(|x| *x == f) {
-        let t = ts.iter().find(|t| t.t == s).expect("type not compiled");
-        let x = hexv(&a[3]);
-        let out = (t.f)(func, x);
-        (out, trig_verdict(s, func, x, out))
-    } else {
-        let p = ps.iter().find(|p| p.s == s && p.d == d).expect("pair not compiled");
-        match f {
-            "pow" => {
-                let (x, y) = (hexv(&a[3]), hexv(&a[4]));
-                let out = (p.pow.unwrap())(x, y);
-                (out, pow_verdict(s, d, x, y, out))
-            }
-            "powi" => {
-                let (x, n): (u128, i32) = (hexv(&a[3]), a[4].parse().unwrap());
-                let powi = p.powi.unwrap();
-                let out = powi(x, n);
-                (out, powi_verdict(s, d, x, n, out, &|x, m| powi(x, m)))
-            }
-            _ => {
-                let func = F1.iter().position(|x| *x == f).unwrap();
-                let x = hexv(&a[3]);
-                let out = (p.f1)(func, x).unwrap();
-                (
-                    out,
-                    match func {
-                        0 => sqrt_verdict(s, d, x, out),
-                        1 => log_verdict(s, d, x, out, false),
-                        2 => log_verdict(s, d, x, out, true),
-                        _ => exp_verdict(s, d, x, out),
-                    },
-                )
-            }
-        }
-    };
-    let ticks = last_ticks();
-    println!("observed: {} after {} loop iterations (bound 4 x {} + 64 = {})", out, ticks, d.w, tick_bound(d));
-    let mut bad = out == TOut::Panic || out == TOut::Cut;
-    match v {
-        Verdict::Fine { ratio } => println!("accuracy: error / allowed error = {:.4}", ratio),
-        Verdict::Unjudged => println!("accuracy: (nothing specified for this outcome)"),
-        Verdict::MustErr(why) => {
-            println!("expected: Err ({})", why);
-            bad |= out != TOut::Err;
-        }
-        Verdict::Bad { diff, expected, note, ratio } => {
-            println!("expected: {} [{}] {} (error / allowed = {:.4})", expected, diff, note, ratio);
-            bad = true;
-        }
-    }
-    if f != "powi" && ticks > tick_bound(d) {
-        println!("iterations exceed the bound");
-        bad = true;
-    }
-    if bad {
-        println!("DIFFERS");
-        1
-    } else {
-        println!("AGREES");
-        0
-    }
-}
-
+mod tables;
+pub use driver::TOut;
 fn main() {
-    vcore::par::install_hook();
-    start_watchdog();
-    let args = Args::from_env();
-    match args.cmd() {
-        "run" => cmd_run(&args),
-        "replay" => std::process::exit(cmd_replay(&args.v[1..])),
-        "selftest" => {
-            hp::selftest();
-            oracle::selftest();
-        }
-        "dump" => {
-            // dump S D FUNC --tier T
-            let s = Layout::parse(&args.v[1]).unwrap();
-            let d = Layout::parse(&args.v[2]).unwrap();
-            let tier = Tier::parse(&args.get("tier").unwrap_or("quick".into()));
-            DUMP.with(|c| c.set(true));
-            let fi = FUNCS.iter().position(|f| *f == args.v[3]).unwrap();
-            if fi >= 6 {
-                let ts = trigs();
-                let t = ts.iter().find(|t| t.t == s).unwrap();
-                explore_trig(t, fi - 6, Prop::C11, tier);
-            } else {
-                let ps = pairs();
-                let p = ps.iter().find(|p| p.s == s && p.d == d).unwrap();
-                explore_pair(p, fi, Prop::C11, tier, None);
-            }
-        }
-        _ => {
-            eprintln!("usage: trans run --prop C12..C17|C11 --tier T --out FILE | replay FUNC S D A [B|N] | selftest");
-            std::process::exit(2);
-        }
-    }
+    driver::main("trans", tables::pairs(), tables::trigs(), false);
 }
